@@ -376,5 +376,12 @@ pub async fn connect_from(src_ip: &str, dst: SocketAddr) -> std::io::Result<TcpS
 }
 
 pub async fn write_all<W: AsyncWriteExt + Unpin>(w: &mut W, b: &[u8]) -> bool {
-    matches!(tokio::time::timeout(STEP_TIMEOUT, w.write_all(b)).await, Ok(Ok(())))
+    matches!(
+        tokio::time::timeout(STEP_TIMEOUT, async {
+            w.write_all(b).await?;
+            w.flush().await
+        })
+        .await,
+        Ok(Ok(()))
+    )
 }
